@@ -98,9 +98,9 @@ type hbtRun struct {
 	tasks   map[int]*hbtTask
 	res     *hbtResult
 	panics  int
-	tainted bool // two streams or a panic were seen: the sequential expectations no longer apply
-	overlap bool // two start operations overlapped in this history (one began before the other had returned)
-	blocked bool // some task neither parked nor ended within the bound (serialised by a lock)
+	tainted bool  // two streams or a panic were seen: the sequential expectations no longer apply
+	overlap bool  // two start operations overlapped in this history (one began before the other had returned)
+	blocked bool  // some task neither parked nor ended within the bound (serialised by a lock)
 	asking  int64 // IsHeartbeatRunning questions that have not returned (they are goroutines too)
 }
 
@@ -213,7 +213,7 @@ func (x *hbtRun) compare(op, kind string, quiescentWant int, lines ...string) bo
 	// SPEC, no model: with no operation in flight there is at most one stream, and it runs iff the manager says so
 	if x.live() == 0 && !x.tainted {
 		if n > 1 {
-			n = x.streams(1, 150*time.Millisecond) // a goroutine that is only slow to exit is not a second stream
+			n = x.streams(1, 10*time.Millisecond) // a goroutine that is only slow to exit is not a second stream
 		}
 		// a surplus stream after two start operations overlapped is the "two concurrent streams" clause; the same
 		// symptom without overlapping starts is something else and gets a key of its own
@@ -277,7 +277,11 @@ func (x *hbtRun) exec(op string) bool {
 		}
 		x.res.executed = append(x.res.executed, op)
 		w.g0 = hbtGoroutines()
-		w.f.AddFunctionType(model.FunctionTypeDeviceDiagnosisHeartbeatData, true, false)
+		if pan := h.Recover(func() { w.f.AddFunctionType(model.FunctionTypeDeviceDiagnosisHeartbeatData, true, false) }); pan != nil {
+			x.panics++
+			x.tainted = true
+			x.res.fail("C16/panic-sequential", fmt.Sprintf("AddFunctionType(heartbeat) panicked: %v", pan))
+		}
 		return x.compare(op, "add", 1, x.seqLines("start")...)
 	case "start", "stop":
 		if x.live() > 0 && !x.split {
@@ -381,7 +385,11 @@ func (x *hbtRun) exec(op string) bool {
 			return true
 		}
 		x.res.executed = append(x.res.executed, op)
-		w.l.RemoveEntity(w.e)
+		if pan := h.Recover(func() { w.l.RemoveEntity(w.e) }); pan != nil {
+			x.panics++
+			x.tainted = true
+			x.res.fail("C16/panic-sequential", fmt.Sprintf("RemoveEntity panicked: %v", pan))
+		}
 		return x.compare(op, "removeentity", 0, x.seqLines("stop")...)
 	}
 	return true
@@ -514,6 +522,29 @@ func genHbtHistory(rng *rand.Rand) []string {
 		ops = append(ops, "removeentity")
 	}
 	return ops
+}
+
+// hbtEnumerate: all schedules of k overlapping operations (each start or stop), from a running and from a stopped
+// heartbeat: an operation is begun and then stepped through its yield points (a step of an operation that has
+// already ended is skipped).
+func hbtEnumerate(k int) [][]string {
+	var out [][]string
+	for kinds := 0; kinds < 1<<k; kinds++ {
+		var seqs [][]string
+		for i := 0; i < k; i++ {
+			g := "gstop"
+			if kinds>>i&1 == 1 {
+				g = "gstart"
+			}
+			seqs = append(seqs, []string{fmt.Sprintf("%s %d", g, i+1), fmt.Sprintf("step %d", i+1), fmt.Sprintf("step %d", i+1)})
+		}
+		for _, init := range [][]string{nil, {"stop"}} {
+			hbtMerges(seqs, func(m []string) {
+				out = append(out, append(append([]string{}, init...), m...))
+			})
+		}
+	}
+	return out
 }
 
 var (
@@ -693,10 +724,16 @@ func hbtRealtime(T time.Duration, ticks int) (fails [][2]string, median time.Dur
 	var quiet []hbtSpan // spans in which a gap between refreshes proves nothing
 	span := func(f func()) hbtSpan {
 		a := time.Now()
-		f()
+		if pan := h.Recover(f); pan != nil {
+			fail("C16/panic-sequential", fmt.Sprintf("a heartbeat operation called with no other operation in flight panicked: %v", pan))
+		}
 		return hbtSpan{a, time.Now()}
 	}
+	// a running span must be long enough to judge "a refresh at least every announced timeout"
 	run := time.Duration(ticks)*P + P/2
+	if min := T + slack + 200*time.Millisecond; run < min {
+		run = min
+	}
 	silence := 2*P + 150*time.Millisecond
 
 	add := span(func() { w.f.AddFunctionType(model.FunctionTypeDeviceDiagnosisHeartbeatData, true, false) })
@@ -864,9 +901,6 @@ func hbtRealtime(T time.Duration, ticks int) (fails [][2]string, median time.Dur
 	if lateRemove > 1 {
 		fail("C16/refresh-after-remove-entity", fmt.Sprintf("the data changed %d times after RemoveEntity had returned", lateRemove))
 	}
-	if len(ss) < 3*ticks {
-		fail("C16/period-exceeds-timeout", fmt.Sprintf("only %d refreshes were seen in three running spans of %v each", len(ss), run))
-	}
 	sort.Slice(gaps, func(i, j int) bool { return gaps[i] < gaps[j] })
 	if len(gaps) > 0 {
 		median = gaps[len(gaps)/2]
@@ -941,21 +975,12 @@ func hbtHammer(rng *rand.Rand, goroutines, opsEach int) (panics []string, stream
 	return
 }
 
-// hbtWatchdog ends the process when a test hangs (a blocked call into the stack), long before go test's own timeout.
-func hbtWatchdog(name string, d time.Duration) func() {
-	t := time.AfterFunc(d, func() {
-		buf := make([]byte, 1<<20)
-		buf = buf[:runtime.Stack(buf, true)]
-		panic(fmt.Sprintf("%s did not finish within %v (a call into the stack blocks?)\n%s", name, d, buf))
-	})
-	return func() { t.Stop() }
-}
-
 // ---------- the test
 
 func TestHeartbeat(t *testing.T) {
 	r := h.NewReport("heartbeat", "(A) histories of StartHeartbeat / StopHeartbeat / IsHeartbeatRunning / RemoveEntity on a real HeartbeatManager, sequentially and as goroutines parked at the two yield points and released in the order of the model's event list (up to three operations in flight), observation = (IsHeartbeatRunning, number of heartbeat goroutines, panic) compared with Spine.HB after every step; (B) live heartbeats with announced timeouts from 100 ms to seconds incl. > 2 s, two real subscribers: notify trace and sampled data judged by the SPEC monitor, median gap compared with Spine.HB.period; (C) unparked concurrent start/stop/IsHeartbeatRunning from 8 goroutines; non-trivial = distinct part-A histories (by op text) that agreed to the end")
 	defer r.Write()
+	defer hbtGuard(r, "C16")()
 	defer hbtWatchdog("TestHeartbeat", time.Duration(h.Scale(6, 25))*time.Minute)()
 	h.InstallYield()
 	d := h.StartDriver("drv_hb")
@@ -1003,6 +1028,22 @@ func TestHeartbeat(t *testing.T) {
 	for _, ops := range hbtCorpus() {
 		merge(runHbtHistory(d, split, ops), strings.Join(ops, "; "))
 	}
+	if split {
+		// every schedule of two overlapping operations; in the thorough tier of three
+		all := hbtEnumerate(2)
+		if h.Tier() == "thorough" {
+			// a third of the 26 880 schedules of three operations per run; which third depends on the seed
+			for i, ops := range hbtEnumerate(3) {
+				if int64(i%3) == h.Seed()%3 {
+					all = append(all, ops)
+				}
+			}
+		}
+		for _, ops := range all {
+			merge(runHbtHistory(d, split, ops), strings.Join(ops, "; "))
+		}
+		r.Info["enumerated_schedules"] = len(all)
+	}
 	rng := h.Rng(1600)
 	for i, n := 0, h.Scale(250, 2500); i < n; i++ {
 		ops := genHbtHistory(rng)
@@ -1015,7 +1056,7 @@ func TestHeartbeat(t *testing.T) {
 	}
 	plan := []rt{{100, 6}, {250, 4}, {1000, 2}, {2300, 4}}
 	if h.Tier() == "thorough" {
-		plan = append(plan, rt{150, 8}, rt{500, 4}, rt{2000, 2}, rt{2050, 10}, rt{4000, 2}, rt{6000, 2})
+		plan = append(plan, rt{150, 8}, rt{500, 4}, rt{2000, 2}, rt{2100, 10}, rt{4000, 2}, rt{6000, 2})
 	}
 	var wg sync.WaitGroup
 	var bmu sync.Mutex
@@ -1045,7 +1086,12 @@ func TestHeartbeat(t *testing.T) {
 			want, _ := strconv.Atoi(d.Ask(fmt.Sprintf("period %d", announced.Milliseconds())))
 			wantD := time.Duration(want) * time.Millisecond
 			r.Eval("realtime", "")
-			if diff := median - wantD; median == 0 || diff > 20*time.Millisecond+wantD/10 || -diff > 20*time.Millisecond+wantD/10 {
+			if median == 0 {
+				// no two refreshes without a start or stop between them: nothing to compare (recorded in the description)
+				if len(fails) == 0 {
+					r.Traces++
+				}
+			} else if diff := median - wantD; diff > 20*time.Millisecond+wantD/10 || -diff > 20*time.Millisecond+wantD/10 {
 				if len(fails) == 0 {
 					r.Mismatch(op, fmt.Sprintf("median refresh gap %v", median), fmt.Sprintf("period %v", wantD), "refresh period for the announced timeout")
 				}
